@@ -34,6 +34,7 @@ Definition tstep (w : tworld) (o : op) : tworld :=
       | None => w
       end
   | SaveFail _ => w
+  | Write _ => w   (* outside the exactly-once statement: see [no_write] *)
   | NewSession =>
       {| tfile := tfile w; tsess := tsess w ++ [map (fun x => (None, (fst (snd x), snd (snd x), false))) (tfile w)];
          tts := tts w; tnext := tnext w |}
@@ -222,7 +223,7 @@ Proof. unfold tags_of, t_clear. rewrite map_map. reflexivity. Qed.
 
 Theorem tstep_inv w o : INV w -> INV (tstep w o).
 Proof.
-  intros [Hb Hs Hk]. destruct o as [sid c now|sid|sid| |sid off|sid|]; cbn [tstep].
+  intros [Hb Hs Hk]. destruct o as [sid c now|sid|sid|sid| |sid off|sid|]; cbn [tstep].
   - (* Add *)
     destruct (trim c) as [|c0 c'] eqn:Et; [constructor; assumption|].
     constructor; cbn [tfile tsess tnext]; unfold file_tags; cbn [tfile].
@@ -279,6 +280,7 @@ Proof.
            exfalso. assert (fst (k, m) = sid) by (apply (H1 (k, m)); eapply subl_in; eassumption). cbn in *. congruence.
         -- intros t Ht. rewrite Hft. apply in_or_app. left. exact Ht.
   - (* SaveFail *) constructor; assumption.
+  - (* Write *) constructor; assumption.
   - (* NewSession *)
     constructor; cbn [tfile tsess tnext]; unfold file_tags; cbn [tfile]; try assumption.
     intros k l Hn. destruct (Nat.lt_ge_cases k (length (tsess w))) as [Hlt|Hge].
@@ -330,9 +332,9 @@ Proof.
   destruct (0 <? off); [apply R|]. destruct (_ <? 0); [reflexivity|apply R].
 Qed.
 
-Theorem tstep_erase w o : terase (tstep w o) = astep (terase w) o.
+Theorem tstep_erase w o : is_write o = false -> terase (tstep w o) = astep (terase w) o.
 Proof.
-  destruct o as [sid c now|sid|sid| |sid off|sid|]; cbn [tstep astep].
+  intros Hnw. destruct o as [sid c now|sid|sid|sid| |sid off|sid|]; try discriminate Hnw; cbn [tstep astep].
   - destruct (trim c) as [|c0 c'] eqn:Et; [reflexivity|].
     unfold terase, with_sess; cbn [tfile tsess tts afile asess ats]. f_equal.
     apply map_update_nth'. intros l. rewrite map_app. reflexivity.
@@ -368,10 +370,12 @@ Qed.
 Lemma trun_inv ops : forall w, INV w -> INV (trun w ops).
 Proof. induction ops as [|o ops IH]; intros w H; [exact H|]. apply IH, tstep_inv, H. Qed.
 
-Lemma trun_erase ops : forall w, terase (trun w ops) = arun (terase w) ops.
+Definition no_write (ops : list op) : Prop := Forall (fun o => is_write o = false) ops.
+
+Lemma trun_erase ops : forall w, no_write ops -> terase (trun w ops) = arun (terase w) ops.
 Proof.
-  induction ops as [|o ops IH]; intros w; [reflexivity|]. unfold trun, arun in *. cbn [fold_left].
-  rewrite IH, tstep_erase. reflexivity.
+  induction ops as [|o ops IH]; intros w Hn; [reflexivity|]. unfold trun, arun in *. cbn [fold_left].
+  inversion Hn; subst. rewrite IH by assumption. rewrite tstep_erase by assumption. reflexivity.
 Qed.
 
 (** Exactly once, in recording order, nothing lost — for every history from any initial file. *)
